@@ -416,13 +416,25 @@ Proof.
       left. split; [exact E | reflexivity].
     + exists r. split; [|now left]. rewrite (get_upd_other s c0 c f Hf Hne). exact Hg.
   - destruct (eo_mode (lookup no_eora ora c0) =? 1); [exact Hid|].
-    destruct (stop_fields U s c0) as (F1 & F2 & _). split; [exact F2|]. split; [exact F1|].
-    intros c r Hg. rewrite stop_get. destruct (c0 =? c) eqn:Ec.
-    + apply Z.eqb_eq in Ec. subst c0. rewrite Hg. simpl. eexists. split; [reflexivity|].
-      rewrite Hg in Hg0. inversion Hg0; subst r0.
-      right. split; [exact E|]. simpl. split; [reflexivity|]. split; [reflexivity|]. split; [repeat split|].
-      right. split; reflexivity.
-    + exists r. split; [exact Hg | now left].
+    destruct (p_pending (c_proto r0) <=? Z.max 0 (eo_mode (lookup no_eora ora c0) - 2)).
+    + split; [reflexivity|]. split; [reflexivity|]. intros c r Hg.
+      set (f := fun r1 : consumer => set_sent (c_sent r1 + p_pending (c_proto r1)) (set_proto (p_set_pending 0 (c_proto r1)) r1)).
+      assert (Hf : forall r1, c_id r1 = c0 -> c_id (f r1) = c0) by (intros r1 H; exact H).
+      destruct (Z.eq_dec c0 c) as [->|Hne].
+      * rewrite Hg in Hg0. inversion Hg0; subst r0. exists (f r). split; [apply (get_upd_same s c f r Hf Hg)|].
+        right. split; [exact E|]. simpl. split; [reflexivity|]. split; [reflexivity|]. split; [repeat split|].
+        left. split; [exact E | reflexivity].
+      * exists r. split; [|now left]. rewrite (get_upd_other s c0 c f Hf Hne). exact Hg.
+    + set (j := Z.max 0 (eo_mode (lookup no_eora ora c0) - 2)).
+      set (f := fun r1 : consumer => set_sent (c_sent r1 + j) r1).
+      assert (Hf : forall r1, c_id r1 = c0 -> c_id (f r1) = c0) by (intros r1 H; exact H).
+      destruct (stop_fields U (upd s c0 f) c0) as (F1 & F2 & _). split; [exact F2|]. split; [exact F1|].
+      intros c r Hg. rewrite stop_get. destruct (c0 =? c) eqn:Ec.
+      * apply Z.eqb_eq in Ec. subst c0. rewrite (get_upd_same s c f r Hf Hg). simpl. eexists. split; [reflexivity|].
+        rewrite Hg in Hg0. inversion Hg0; subst r0.
+        right. split; [exact E|]. simpl. split; [reflexivity|]. split; [reflexivity|]. split; [repeat split|].
+        right. split; reflexivity.
+      * apply Z.eqb_neq in Ec. rewrite (get_upd_other s c0 c f Hf Ec). exists r. split; [exact Hg | now left].
 Qed.
 
 Lemma estep_fold : forall U f, estep U f -> forall l s,
@@ -769,12 +781,17 @@ Proof.
       destruct (_ && _); split; try reflexivity; simpl; tauto. }
     assert (Hsd : forall s0 c1, inv s0 -> s_now (send_one U ora s0 c1) = s_now s0 /\
               forall ts0 c2, In c2 (tq_get (s_remq (send_one U ora s0 c1)) ts0) -> In c2 (tq_get (s_remq s0) ts0) \/ ts0 = s_now s0 + U).
-    { intros s0 c1 Hi0. unfold send_one. destruct (get s0 c1) as [r1|]; [|split; [reflexivity | tauto]].
+    { intros s0 c1 Hi0. unfold send_one. destruct (get s0 c1) as [r1|] eqn:Gx; [|split; [reflexivity | tauto]].
       destruct (_ && _ && _); [|split; [reflexivity | tauto]].
       destruct (_ =? 0); [split; [reflexivity | tauto]|].
       destruct (_ =? 0); [split; [reflexivity | simpl; tauto]|].
       destruct (_ =? 1); [split; [reflexivity | tauto]|].
-      split; [exact (proj1 (proj2 (stop_fields U s0 c1))) | intros ts0 c2; apply stop_remq; exact Hi0]. }
+      destruct (_ <=? _); [split; [reflexivity | simpl; tauto]|].
+      match goal with |- context [stop_and_prepare U ?sx c1] => set (s0' := sx) end.
+      assert (Hi0' : inv s0').
+      { unfold s0'. apply inv_upd_same with (r := r1);
+          [exact Hi0 | intros [] | exact Gx | intros r'; reflexivity | reflexivity | reflexivity | intros Hc; exact Hc]. }
+      split; [exact (proj1 (proj2 (stop_fields U s0' c1))) | intros ts0 c2; apply (stop_remq U s0' c1 ts0 c2 Hi0')]. }
     set (s1 := fold_left (queue_one ora) order s) in *.
     assert (Hi1 : inv s1) by (apply inv_fold; [intros; apply inv_queue_one; assumption | exact Hi]).
     assert (Hn1 : s_now s1 = s_now s) by (exact (proj1 (estep_fold U _ (estep_queue_one U ora) order s))).
